@@ -264,22 +264,36 @@ hmac_key (int kl)
 static const int bset[] = { 0, 1, 2, 31, 32, 33, 55, 56, 63, 64, 65, 119, 127, 128, 129, 130 };
 #define NB ((int) (sizeof bset / sizeof *bset))
 
+static const int sset[] = { 0, 1, 8, 16, 32, 51, 52, 53, 55, 56, 63, 64, 65, 115, 116, 117, 128, 180, 200 };
+#define NSS ((int) (sizeof sset / sizeof *sset))
+
 static void
 pbkdf2_pw (int pi)
 {
   unsigned char ref[128], out[128];
   char det[200], rp[48];
-  int pl = bset[pi];
+  int pl = pi < NB ? bset[pi] : 0;
   snprintf (rp, sizeof rp, "p:%d", pi);
-  for (int si = 0; si < NB; si++)
+  /* pi < NB: password length bset[pi] x every salt length 0..200; pi >= NB: salt length (pi - NB) mod-64 classes x every
+     password length 0..200 (the key pre-hash and the salt block padding are separate fast paths) */
+  for (int si = 0; si <= 200; si++)
     for (int it = 1; it <= 50; it++)
       {
         if (!vh_thorough && !(it <= 3 || it == 10 || it == 50))
           continue;
+        if (pi >= NB && it > 2)
+          continue;
         static const int dk[] = { 1, 20, 31, 32, 33, 63, 64, 65, 96, 100 };
         for (unsigned di = 0; di < sizeof dk / sizeof *dk; di++)
           {
-            int sl = bset[si];
+            int sl = si;
+            if (pi >= NB)
+              {
+                pl = si;
+                sl = sset[pi - NB];
+                if (!(dk[di] == 32 || dk[di] == 33 || dk[di] == 64))
+                  continue;
+              }
             /* libgcrypt refuses an empty passphrase in FIPS-agnostic mode for some versions: use its answer only when it gives one */
             gcry_error_t e = gcry_kdf_derive (msg[0] + 9, (size_t) pl, GCRY_KDF_PBKDF2, GCRY_MD_SHA256, msg[1] + 2, (size_t) sl, (unsigned long) it,
                                               (size_t) dk[di], ref);
@@ -342,7 +356,7 @@ main (int argc, char **argv)
   for (int kl = 0; kl <= 200 && !vh_expired (); kl++)
     if (vh_mine (idx++))
       hmac_key (kl);
-  for (int pi = 0; pi < NB; pi++)
+  for (int pi = 0; pi < NB + NSS; pi++)
     if (vh_mine (idx++))
       pbkdf2_pw (pi);
   vh_done ();
